@@ -1408,6 +1408,14 @@ class Vmap(Generic[X, R], GFI[X, R]):
     axis_name: Const[str | None]
     spmd_axis_name: Const[str | None]
 
+    def _arg_axes(self, n_args: int) -> tuple:
+        """`in_axes` of the callee's arguments as a tuple (`None` and a bare int
+        apply to every argument, as in `jax.vmap`)."""
+        in_axes = self.in_axes.value
+        if in_axes is None or isinstance(in_axes, int):
+            return (in_axes,) * n_args
+        return tuple(in_axes)
+
     def simulate(
         self,
         *args,
@@ -1427,10 +1435,7 @@ class Vmap(Generic[X, R], GFI[X, R]):
         *args,
         **kwargs,
     ) -> tuple[Trace[X, R], Weight]:
-        if self.in_axes.value is None:
-            in_axes = (0,) + (None,) * len(args)
-        else:
-            in_axes = (0,) + self.in_axes.value
+        in_axes = (0,) + self._arg_axes(len(args))
         tr, w = modular_vmap(
             _bind_kwargs(self.gen_fn.generate, kwargs),
             in_axes=in_axes,
@@ -1446,10 +1451,7 @@ class Vmap(Generic[X, R], GFI[X, R]):
         *args,
         **kwargs,
     ) -> tuple[Density, R]:
-        if self.in_axes.value is None:
-            in_axes = (0,) + (None,) * len(args)
-        else:
-            in_axes = (0,) + self.in_axes.value
+        in_axes = (0,) + self._arg_axes(len(args))
         density, retval = modular_vmap(
             _bind_kwargs(self.gen_fn.assess, kwargs),
             in_axes=in_axes,
@@ -1466,10 +1468,7 @@ class Vmap(Generic[X, R], GFI[X, R]):
         *args,
         **kwargs,
     ) -> tuple[Trace[X, R], Weight, X | None]:
-        if self.in_axes.value is None:
-            in_axes = (0, 0) + (None,) * len(args)
-        else:
-            in_axes = (0, 0) + self.in_axes.value
+        in_axes = (0, 0) + self._arg_axes(len(args))
         new_tr, w, discard = modular_vmap(
             _bind_kwargs(self.gen_fn.update, kwargs),
             in_axes=in_axes,
@@ -1486,10 +1485,7 @@ class Vmap(Generic[X, R], GFI[X, R]):
         *args,
         **kwargs,
     ) -> tuple[Trace[X, R], Weight, X | None]:
-        if self.in_axes.value is None:
-            in_axes = (0, None) + (None,) * len(args)
-        else:
-            in_axes = (0, None) + self.in_axes.value
+        in_axes = (0, None) + self._arg_axes(len(args))
         new_tr, w, discard = modular_vmap(
             _bind_kwargs(self.gen_fn.regenerate, kwargs),
             in_axes=in_axes,
